@@ -192,8 +192,8 @@ def run(corrupt=None):
     thorough = ck.tier == "thorough"
     recs = tlc_tables(ck, "c17_22", 2, 2)
     if thorough:
-        recs += tlc_tables(ck, "c17_32", 3, 2)[::7]
-        recs += tlc_tables(ck, "c17_23", 2, 3)[::7]
+        recs += tlc_tables(ck, "c17_32", 3, 2)[::2]
+        recs += tlc_tables(ck, "c17_23", 2, 3)[::3]
     else:
         extra = tlc_tables(ck, "c17_32", 3, 2)
         rnd = random.Random(ck.seed)
